@@ -14,9 +14,11 @@
 
    Known findings (DESIGN 2.3 item 5) are predicates over A-level terms (section "known"); every
    invariant is checked outside the predicates listed in `Known` so that TLC keeps exploring.
-   `Bugs` says which of the defects the code really has (the shape before / after the proposed
-   patch is modelled for each): the check runs TLC once per defect with Bugs = {d}, Known = {},
-   replays the counterexample on the real code and lets the trace spec decide. *)
+   `Bugs` says which defect shapes the model has: each of S6a, S6b, RM (fixed in /repo by c658da2, 09b3f38,
+   5f19fd8), S7a, S7b (the two restore findings, still in the code) is modelled before and after its patch;
+   the configs of the checks use Bugs = Known = {S7a, S7b} = the code as it is. Anti-vacuity: each check runs
+   TLC once more with one fixed defect switched back on (XU = a seeded one for C07: umount leaves the
+   superblock) and must find the counterexample again. *)
 EXTENDS Vfs, Json
 CONSTANTS Paths,        \* set of raw component lists, e.g. <<"", "a">> for "/a"
           BadPath,      \* a path that is not absolute
@@ -26,8 +28,7 @@ CONSTANTS Paths,        \* set of raw component lists, e.g. <<"", "a">> for "/a"
           RootUid,      \* root uid every backend reports (internal id)
           TestUid,      \* caller uid used for the context observation
           MaxOps,
-          Bugs,         \* defects the modelled code has, subset of {"S6a", "S6b", "S7a", "S7b", "RM"} (section "known");
-                        \* the check finds out which by replaying TLC's counterexamples on the real code
+          Bugs,         \* defect shapes in the model, subset of {"S6a", "S6b", "S7a", "S7b", "RM", "XU"} (section "known")
           Known,        \* known-finding predicates in force (subset of the same ids)
           WithPersist,  \* BOOLEAN: save/restore steps enabled (C19)
           KeepHist,     \* BOOLEAN: record the history (scenario export / counterexamples)
@@ -143,7 +144,7 @@ IUmount(p) ==
        /\ Log([op |-> "umount", path |-> PathStr(p), ok |-> FALSE])
   ELSE LET idx == mnt[node].idx IN
        /\ mnt' = [n \in DOMAIN mnt \ {node} |-> mnt[n]]
-       /\ sb' = [sb EXCEPT ![idx] = Vacant]
+       /\ sb' = IF "XU" \in Bugs THEN sb ELSE [sb EXCEPT ![idx] = Vacant]     \* (XU: seeded, model only)
        /\ smap' = [smap EXCEPT ![idx] = NoMap]
        /\ dirty' = [dirty EXCEPT ![idx] = FALSE]
        /\ aok' = AUmountPre(TRUE, p)
